@@ -750,7 +750,7 @@ bool Session::retrans_callback(const SequencePair& with, RetransmissionContext& 
 	{
 		if (rctx._last + 1 < with.first)
 		{
-			send(generate_sequence_reset(with.first, true), true, _next_send_seq);
+			send(generate_sequence_reset(with.first, true), true, rctx._last + 1); // numbered with the first number of the gap
 			slout_debug << "retrans_callback scenario #2, " << rctx;
 		}
 	}
@@ -758,7 +758,7 @@ bool Session::retrans_callback(const SequencePair& with, RetransmissionContext& 
 	{
 		if (with.first > rctx._begin)
 		{
-			send(generate_sequence_reset(with.first, true));
+			send(generate_sequence_reset(with.first, true), true, rctx._begin); // numbered with the first number of the gap
 			slout_debug << "retrans_callback scenario #3, " << rctx;
 		}
 	}
